@@ -290,6 +290,25 @@ func (agc *AggregatorContext) PrepareRoundEndBlock(block uint64) (newRoundFeeder
 	return newRoundFeederIDs
 }
 
+// SealRoundsWithStoredPrice closes every open round whose round id is already present in the
+// store (the stored next round id of its token is ahead of it). It is used when the context
+// is rebuilt from the store after a restart.
+func (agc *AggregatorContext) SealRoundsWithStoredPrice(nextRoundID func(tokenID uint64) uint64) {
+	for feederID, round := range agc.rounds {
+		if round.status != roundStatusOpen {
+			continue
+		}
+		feeder := agc.params.GetTokenFeeder(feederID)
+		if feeder == nil {
+			continue
+		}
+		if nextRoundID(feeder.TokenID) > round.nextRoundID {
+			round.status = roundStatusClosed
+			delete(agc.aggregators, feederID)
+		}
+	}
+}
+
 // SetParams sets the params field of aggregatorContext“
 func (agc *AggregatorContext) SetParams(p *types.Params) {
 	agc.params = p
